@@ -4,6 +4,7 @@ import NmfuModel.Rt
 import NmfuModel.NoSpin
 import NmfuModel.Labels
 import NmfuModel.Cli
+import NmfuModel.Lit
 import NmfuModel.Generated.Flags
 open Nmfu
 
@@ -236,6 +237,25 @@ def cmdCli (args : List String) : String :=
     | none => s!"error clusterProduct={clusterOK}"
   | _ => "error bad-args"
 
+def fmtOptList (o : Option (List Nat)) : String :=
+  match o with
+  | some l => "ok " ++ " ".intercalate (l.map toString)
+  | none => "none"
+
+def cmdLit (args : List String) : String :=
+  match args with
+  | [kind, codes] =>
+    let cs := (splitOn codes ',').filterMap fun t => t.toNat?
+    match kind with
+    | "convstr" => fmtOptList (convertString cs)
+    | "escape" => fmtOptList (some (escapeString cs))
+    | "clex" => fmtOptList (cLex cs)
+    | "charconst" => (match convertCharConst cs with | some v => s!"ok {v}" | none => "none")
+    | "int" => (match convertInt cs with | some v => s!"ok {v}" | none => "none")
+    | "casefold" => fmtOptList (some (cs.flatMap caseFoldSorted))
+    | _ => "error bad-kind"
+  | _ => "error bad-args"
+
 def handle (line : String) : String :=
   match splitBar line with
   | "equiv" :: args => cmdEquiv args
@@ -245,6 +265,7 @@ def handle (line : String) : String :=
   | "spin" :: args => cmdSpin args
   | "labels" :: args => cmdLabels args
   | "cli" :: args => cmdCli args
+  | "lit" :: args => cmdLit args
   | "ping" :: _ => "pong"
   | _ => "error unknown-command"
 
